@@ -34,3 +34,37 @@ func c11ArityGrid(r *Rand) []string {
 	}
 	return out
 }
+
+// c11PercentGrid: `{percent v p min max}` at and around the boundary min = max (division by zero: NaN% / ±Inf%),
+// with the default range, and with huge operands (overflow of (v-min)*100).  Always on.
+func c11PercentGrid(r *Rand) []string {
+	var out []string
+	vals := []string{"0", "-0", "1", "3", "5", "-2.5", "0.125", "1e308", "-1e308", "5e-324", "1.7976931348623157e308", "abc", "inf", "nan"}
+	bounds := []string{"0", "-0", "3", "-2.5", "1e308", "5e-324", "1", "inf"}
+	for _, v := range vals {
+		for _, p := range []string{"0", "1", "3"} {
+			out = c11Both(out, "percent", []c11Arg{{val: v, mode: r.Intn(2)}, {val: p}})
+			for _, m := range bounds {
+				out = c11Both(out, "percent", []c11Arg{{val: v, mode: r.Intn(2)}, {val: p}, {val: m, mode: r.Intn(2)}, {val: m, mode: r.Intn(2)}})
+				out = c11Both(out, "percent", []c11Arg{{val: v, mode: r.Intn(2)}, {val: p}, {val: m, mode: r.Intn(2)}})
+			}
+		}
+	}
+	return out
+}
+
+// c11CompareGrid: lt / gt / lte / gte on every pair of the special floats (NaN on either side makes all four falsy,
+// -0 = +0, the infinities, equal values in different spellings, a non-number).  Always on.
+func c11CompareGrid(r *Rand) []string {
+	var out []string
+	vals := []string{"nan", "NaN", "inf", "-inf", "0", "-0", "1", "1.0", "1e0", "-1", "2", "9007199254740993", "9007199254740992", "abc"}
+	for _, name := range []string{"lt", "gt", "lte", "gte"} {
+		for _, a := range vals {
+			for _, b := range vals {
+				m := r.Intn(2)
+				out = append(out, c11Case(r.Bool(), name, []c11Arg{{val: a, mode: m}, {val: b, mode: 1 - m}}))
+			}
+		}
+	}
+	return out
+}
